@@ -91,6 +91,9 @@ def render_doc(shape, keys, slots):
     if shape == "seqnest":
         lines = ["- %s" % r[0], "- [[%s], 7]" % ", ".join(r[1:])]
         return "\n".join(lines) + "\n"
+    if shape == "mapkeyanch":   # slots sit under ANCHORED keys (`&ka k: <slot>`)
+        lines = ["&q%s%d %s: %s" % (keys[0], i, keys[i % 3] + str(i), x) for i, x in enumerate(r)]
+        return "\n".join(lines) + "\n"
     if shape == "scalar":
         return r[0] + "\n"
     raise ValueError(shape)
@@ -221,8 +224,11 @@ def run_case(case, log, drv_reqs, drv_ctx):
     try:
         req = {"op": "C10.resolve", "mode": mode, "l": adoc(lhs, ids), "r": adoc(rhs, ids)}
     except codec.OutOfModel:
-        rec["skip"] = True
-        return rec
+        # anchored keys / containers: outside the Lean model; the property's clauses are still judged on the real code
+        rec["oom"] = True
+        lhs, rhs = load(ltxt, log), load(rtxt, log)
+        merger = Merger(log, lhs, MergerConfig(log, SimpleNamespace(anchors=mode, arrays=arrays)))
+        return judge_merge(merger, rhs, rtxt, mode, rec)
     merger = Merger(log, lhs, MergerConfig(log, SimpleNamespace(anchors=mode, arrays=arrays)))
     try:
         ret = merger._resolve_anchor_conflicts(rhs)
@@ -380,6 +386,8 @@ def worker(cases):
         if rec.get("skip"):
             out["skip"] += 1
             continue
+        if rec.get("oom"):
+            out["skip"] += 1     # counted as out of model; the direct clauses below were still judged
         key = "%s|%s|%s|%s" % (c["l"], c.get("r0"), c["r"], c["mode"])
         if rec.get("common"):
             out["nontrivial"].add(hash(key))
@@ -424,9 +432,9 @@ def gen_cases(chk):
     # only structurally mergeable pairs: map + map, seq + seq, seq + scalar
     pools = {
         "map": ([mk("map", lkeys, s) for s in docs3] + [mk("map", lkeys, s) for s in docs2]
-                + [mk("mapnest", lkeys, s) for s in docs3],
+                + [mk("mapnest", lkeys, s) for s in docs3] + [mk("mapkeyanch", lkeys, s) for s in docs2],
                 [mk("map", rkeys, s) for s in docs3] + [mk("map", rkeys, s) for s in docs2]
-                + [mk("mapnest", rkeys, s) for s in docs3]),
+                + [mk("mapnest", rkeys, s) for s in docs3] + [mk("mapkeyanch", rkeys, s) for s in docs2]),
         "seq": ([mk("seq", lkeys, s) for s in docs3] + [mk("seq", lkeys, s) for s in docs2]
                 + [mk("seqnest", lkeys, s) for s in docs3],
                 [mk("seq", rkeys, s) for s in docs3] + [mk("seq", rkeys, s) for s in docs2]
